@@ -435,6 +435,7 @@ struct Parts {
     sh: bool,
 }
 
+#[allow(dead_code)] // constructed only without the `transparent` feature
 enum Unsupported {
     TransparentChange,
 }
